@@ -122,9 +122,9 @@ def unforge_signature(data: bytes) -> str:
     """Decode signature from byte form.
 
     :param data: encoded signature.
-    :returns: base58 encoded signature (generic)
+    :returns: base58 encoded signature (generic; BLS signatures are 96 bytes long and have no generic form)
     """
-    return base58_encode(data, b'sig').decode()
+    return base58_encode(data, b'BLsig' if len(data) == 96 else b'sig').decode()
 
 
 def forge_bool(value: bool) -> bytes:
